@@ -431,19 +431,39 @@ def _deep(ctx, G, est, args, kw, cm, ref, reff):
     # equivariance under every ordered selection of taxa (permutations and sub-selections)
     base = G.gm.mat
     re = reestimates(est, args)
+    snap0 = _snap(cm)
     for k in range(1, n + 1):
         for sel in itertools.permutations(range(n), k):
-            if k == n and list(sel) == list(range(n)):
+            sel = list(sel)
+            # compute-then-select on the coancestry object itself: select_taxa / select with every numpy-valid integer
+            # index form (non-negative array, negative array, mixed list) is pure indexing of the computed matrix
+            want = mat0[numpy.ix_(sel, sel)]
+            forms = [("array", numpy.array(sel, dtype="int64")), ("negative-array", numpy.array([i - n for i in sel], dtype="int64")),
+                     ("mixed-list", [(i - n if q % 2 == 0 else i) for q, i in enumerate(sel)])]
+            for fname, ix in forms:
+                for mname, call in (("select_taxa", lambda ix=ix: cm.select_taxa(ix)), ("select", lambda ix=ix: cm.select(ix, axis=len(sel) % 2))):
+                    sub_cm = call()
+                    ctx.transitions += 1
+                    require(type(sub_cm) is type(cm) and sub_cm.mat.shape == want.shape and _near(sub_cm.mat, want), f"DenseSquareTaxaMatrix.{mname}:compute-then-select",
+                            lambda: f"{mname}({ix!r}) [{fname}] of {mat0.tolist()} gives {sub_cm.mat.tolist()}, rows/columns {sel} are {want.tolist()}")
+                    require(_lab_equal(sub_cm.taxa, None if cm.taxa is None else cm.taxa[sel]) and _lab_equal(sub_cm.taxa_grp, None if cm.taxa_grp is None else cm.taxa_grp[sel]),
+                            f"DenseSquareTaxaMatrix.{mname}:compute-then-select-labels", lambda: f"{mname}({ix!r}): labels {sub_cm.taxa} / {sub_cm.taxa_grp}")
+                ctx.flag("select:" + fname)
+            require(_snap(cm) == snap0, f"DenseSquareTaxaMatrix.select_taxa:mutates-object", "select_taxa / select changed the object it selects from")
+            if k == n and sel == list(range(n)):
                 continue
             if re and k < n:
                 continue
-            sel = list(sel)
             sub = base[sel] if G.kind[0] == "U" else base[:, sel]
             lab = (None if G.gm.taxa is None else G.gm.taxa[sel].copy(), None if G.gm.taxa_grp is None else G.gm.taxa_grp[sel].copy())
             gsub = G.make(sub, lab)
             kind = "permutation" if k == n else "subselection"
             c2 = _cls(est).from_gmat(gsub, **kw)
-            ctx.transitions += 2
+            # select-then-compute through the genotype matrix's own select_taxa with negative indices
+            c3 = _cls(est).from_gmat(G.gm.select_taxa(numpy.array([i - n for i in sel], dtype="int64")), **kw)
+            require(_near(c3.mat, c2.mat) and _lab_equal(c3.taxa, c2.taxa), P + ".from_gmat:select-then-compute-negative-indices",
+                    lambda: f"taxa {[i - n for i in sel]} selected on the genotype matrix: {c3.mat.tolist()} vs {c2.mat.tolist()}")
+            ctx.transitions += 4
             ctx.evaluations += 1
             require(_near(c2.mat, mat0[numpy.ix_(sel, sel)]), P + ".from_gmat:" + kind,
                     lambda: f"taxa {sel}: from_gmat of the selected genotypes {c2.mat.tolist()} != selected rows/columns {mat0[numpy.ix_(sel, sel)].tolist()}")
@@ -1009,6 +1029,8 @@ def finalize(ctx, tier, seed):
         assert f"nonmutating:kinship({form})" in ctx.flags and f"nonmutating:coancestry({form})" in ctx.flags, form
     for f in ("to_pandas", "to_csv", "to_hdf5", "copy", "deepcopy", "inverse", "min_inbreeding", "max", "mean", "is_positive_semidefinite", "mat_asformat"):
         assert "nonmutating:" + f in ctx.flags, f
+    for f in ("select:array", "select:negative-array", "select:mixed-list"):
+        assert f in ctx.flags, f
     assert "edit-stage" in ctx.flags and ctx.counters.get("cases:after-in-place-edit", 0) > 100
     for f in ("deep:inverse", "deep:min_inbreeding", "deep:psd-true", "deep:permutation", "deep:subselection"):
         assert f in ctx.flags, f
